@@ -288,6 +288,12 @@ def run_sequence(cases):
     return [run_case(c) for c in cases]
 
 
+def run_same_provider(case):
+    """the case analysed three times in a row through one and the same provider object (a provider is built once and reused)"""
+    prov = make_provider(case)
+    return [run_case(case, provider=prov) for _ in range(3)]
+
+
 def ping(arg):
     import sqllineage
 
